@@ -111,7 +111,7 @@ func init() {
 		Technique: "deterministic simulation of goroutine interleaving: seeded cooperative scheduler releasing one client goroutine at a time at hook yield points (isolation-equality oracle), plus the same episode shapes run unsynchronised under the Go race detector in a separate -race binary",
 		Rule:      "case = one API call by one client inside an interleaved episode (controlled mode) or one unsynchronised episode (race mode); distinct_nontrivial = distinct release sequences (hash of the schedule) with at least one context switch, plus race-mode episodes",
 		Assumptions: []string{"controlled interleavings are decided only at the hook yield points (which include every random draw); interference that needs a preemption between two yield points is left to race mode", "race mode is repeatable (same seed, same operations on the same shared values, hence the same unsynchronised access pairs) but not bit-deterministic: the OS decides the real interleaving", "race mode uses the real OS reader and no hooks, because a shared tape or a baton would order the clients and hide races"},
-		Episodes:    map[string]int{"quick": 6000, "thorough": 80000},
+		Episodes:    map[string]int{"quick": 6000, "thorough": 480000},
 		TwiceEvery:  4,
 		Real:        []string{"all exported methods of CharRecipe, WLRecipe, WordList, SFFunction presets and NewSFFunction closures", "golang-set (including its iterator goroutines)", "Go race detector (race mode)"},
 		Simulated:   []string{"which client goroutine runs next (controlled mode)", "crypto/rand.Reader: one scripted tape per client (controlled mode only)", "alphabet / word index orders"},
@@ -473,7 +473,7 @@ func raceSummary(rep string) string {
 func c14RaceMode(c *Ctx, tier string, seed uint64) {
 	n := 1200
 	if tier == "thorough" {
-		n = 20000
+		n = 60000
 	}
 	W := runtime.NumCPU() / 4
 	if W < 1 {
